@@ -17,6 +17,9 @@
 //verif:stub (*encoding/json.Decoder).UseNumber -> stubUseNumber
 //verif:stub (*encoding/json.Decoder).Decode -> stubDecodeS
 //verif:stub (*encoding/json.Decoder).Token -> stubTokenS
+//verif:stub (*encoding/json.Decoder).More -> stubMoreS
+//verif:stub (*encoding/json.Decoder).Buffered -> stubBufferedS
+//verif:stub (*encoding/json.Decoder).InputOffset -> stubInputOffsetS
 //verif:stub strings.EqualFold -> stubEqualFoldS
 //verif:stub (time.Time).Zone -> stubZoneS
 //verif:stub (time.Time).UTC -> stubUTCS
@@ -276,6 +279,31 @@ func stubDecodeS(d *json.Decoder, v any) error {
 	}
 	return decodeClaims(p, false)
 }
+// More() after the top-level value: "is there another element in the current array or object" - false at the end of the
+// input AND when the next non-space byte is ']' or '}', whatever follows
+var trailingStartsClosing, trailingAsked bool
+
+func stubMoreS(d *json.Decoder) bool {
+	if payloadKind != 3 {
+		return false // nothing follows the value
+	}
+	if !trailingAsked {
+		trailingAsked = true
+		trailingStartsClosing = rt.Bool("payload.trailing.data.starts.with.a.closing.bracket")
+	}
+	return !trailingStartsClosing
+}
+
+// Buffered() / InputOffset(): what is left after the value is empty exactly when nothing follows it
+func stubBufferedS(d *json.Decoder) io.Reader {
+	rt.Fail("json.Decoder.Buffered is not modelled (sign side)")
+	return nil
+}
+func stubInputOffsetS(d *json.Decoder) int64 {
+	rt.Fail("json.Decoder.InputOffset is not modelled (sign side)")
+	return 0
+}
+
 func stubTokenS(d *json.Decoder) (json.Token, error) {
 	if payloadKind == 3 {
 		return json.Delim('{'), nil
@@ -603,8 +631,9 @@ func (envRemoteS) Sign(payload []byte) ([]byte, []*x509.Certificate, error) {
 	}
 	signerCertsS = nil
 	for i := 0; i < n; i++ {
-		signerCertsS = append(signerCertsS, rt.Havoc[*x509.Certificate]("cert"+string(rune('0'+i))))
+		signerCertsS = append(signerCertsS, rt.Havoc[*x509.Certificate](certNameS(i)))
 	}
+	allCertsS = append(allCertsS, signerCertsS...)
 	return sig, signerCertsS, nil
 }
 
@@ -626,7 +655,23 @@ func (s *envLocalS) CertificateChain() ([]*x509.Certificate, error) {
 }
 func (s *envLocalS) PrivateKey() crypto.PrivateKey { return s.key }
 
+// certificates of different requests on one object are different certificates
+var reqNoS int
+var allCertsS []*x509.Certificate
+
+func certNameS(i int) string {
+	if reqNoS == 0 {
+		return "cert" + string(rune('0'+i))
+	}
+	return "r" + string(rune('0'+reqNoS)) + ".cert" + string(rune('0'+i))
+}
+
 func stubParseCertS(der []byte) (*x509.Certificate, error) {
+	for _, c := range allCertsS {
+		if rt.Same(c.Raw, der) {
+			return c, nil
+		}
+	}
 	for _, c := range signerCertsS {
 		if rt.Same(c.Raw, der) {
 			return c, nil
@@ -681,10 +726,12 @@ func (envTimestamperS) Timestamp(ctx context.Context, r *tspclient.Request) (*ts
 // newRequest: forget what the environment remembered about the previous request (a second Sign on the same object)
 func newRequest() {
 	payloadKind, claimsReencoded, claimsMap = -1, nil, nil
+	trailingAsked = false
 	finalCallsS, finalFails, finalBytes = 0, false, nil
 	signLogS, signErrS = nil, false
 	keySpecCallsS, chainCallsS = 0, 0
 	attrsS = nil
+	reqNoS++
 	foldIdxS, foldAfterS = -1, false
 	encodingRefusedS = false
 	utcInstants = nil
